@@ -30,3 +30,9 @@ class ValueBool(Value):
     def __ne__(self, rhs):
         return ValueBool(self.v != rhs.v)
     
+    def __and__(self, rhs):
+        return ValueBool(bool(self) and bool(rhs))
+    
+    def __or__(self, rhs):
+        return ValueBool(bool(self) or bool(rhs))
+    
